@@ -105,6 +105,26 @@ def overflow_default(ctx, rid="R2"):
                sample={"capacity": cmin, "flow": dmax})
 
 
+def overflow_covers_maintenance(ctx, rid="R2"):
+    """the overflow depot must be able to host every vehicle the circulation can be forced to create: the lower bounds
+    of the trip edges (covered by trips x formation default) AND of the maintenance edges (one unit per allotted track)"""
+    o, fd = ctx.require_fn("%s.overflow-capacity-covers-maintenance-tracks" % rid, "T1", N("new"),
+                           "the overflow depot's capacity accounts for the maintenance tracks (each allotted track is a forced unit of flow)")
+    if fd is None:
+        return
+    dn = calls_to(fd, "model::network::depot::Depot::new")
+    if len(dn) != 1:
+        ctx.undecided(o, "expected one Depot::new call in Network::new, found %d" % len(dn))
+        return
+    cap = fd.slice_operand_pure(dn[0], dn[0].args[3])["atoms"]
+    has_trips = "param:2" in cap
+    has_tracks = "param:3" in cap or call("model::network::nodes::MaintenanceSlot::track_count") in cap
+    ctx.decide(o, has_trips and has_tracks, "capacity derives from the service trips and from the maintenance slots",
+               "the overflow capacity is computed from the service trips only: every track of a maintenance slot allotted to a type is a "
+               "lower bound of 1 on a flow edge; with scarce real depots and few trips the forced maintenance vehicles exceed the overflow "
+               "capacity, the circulation is infeasible and network_simplex(..).unwrap() panics", loc=dn[0].line())
+
+
 def unlimited_search(ctx, rid, builder, with_key, what):
     o, fd = ctx.require_fn("%s.%s.no-limits" % (rid, builder.split("::")[-1]), "T7", builder,
                            "%s: default minimiser, no time limit, no iteration limit" % what)
@@ -167,6 +187,7 @@ def strict_improver(ctx, rid, key):
 def rules(ctx):
     guarded_arith(ctx)
     overflow_default(ctx)
+    overflow_covers_maintenance(ctx)
     unlimited_search(ctx, "R3", "solver::local_search::build_local_search_solver", PLS_WITH, "schedule local search")
     unlimited_search(ctx, "R3", "solver::transition_local_search::build_transition_local_search_solver", PLS_WITH,
                      "transition local search")
@@ -178,6 +199,10 @@ def rules(ctx):
     from . import common, flownet
     from ..rulelib import SCHEDULE, TRANSITION
     fd_, edges = flownet.edge_sites(ctx)
+    flownet.need(ctx, "R4.connection-arcs-carry-maintenance-flow", edges, "connection", "upper_bound", ["param:3"],
+                 "an arc between two activities can carry as many vehicles as a maintenance slot hosts (its bound derives from the allotted "
+                 "slot counts, not from the formation count alone), else the forced flow through a slot with more tracks than the formation "
+                 "count is infeasible (network_simplex(..).unwrap() panics)")
     for fld in ("lower_bound", "upper_bound"):
         flownet.need(ctx, "R4.trip-%s-capped-by-trip-limit" % fld.replace("_", "-"), edges, "trip", fld, [call(NW_MFC)],
                      "lower and upper bound of a trip edge are capped by the same (per-trip) formation limit, else lower > upper and the "
